@@ -35,8 +35,24 @@ THEOREMS = ["Eliot.Conc.Handover.handover_race_witness", "Eliot.Conc.Handover.ha
 GENERATED_OBLIGATIONS = ["Generated.handover = Handover.assumed"]
 
 
+def gated_functions():
+    """Every method of BufferingDestination and Destinations (whatever they are called in the current
+    source: send, add, __call__, drain, ...) plus lambdas (forwarders); constructors are not gated."""
+    import ast
+
+    names = {"<lambda>"}
+    try:
+        tree = ast.parse(open(OUTPUT).read())
+        for c in tree.body:
+            if isinstance(c, ast.ClassDef) and c.name in ("BufferingDestination", "Destinations"):
+                names |= {f.name for f in c.body if isinstance(f, ast.FunctionDef)}
+    except Exception:
+        names |= {"send", "add", "__call__"}
+    return names - {"__init__"}
+
+
 def make_scheduler(timeout=30.0):
-    return sched.Scheduler([OUTPUT], [sched.LockLines(OUTPUT)], timeout=timeout, only_funcs={"send", "add", "__call__"})
+    return sched.Scheduler([OUTPUT], [sched.LockLines(OUTPUT)], timeout=timeout, only_funcs=gated_functions())
 
 
 def run_real(S, case, chooser):
